@@ -108,6 +108,11 @@ class AlgorithmWithAnnealingMixin:
             self.algo_parameters["annealing"]["n_plateau"] - 1
         )
 
+        if self._annealing_period < 1:
+            raise LeaspyAlgoInputError(
+                "The number of iterations with annealing should be at least `annealing.n_plateau` - 1"
+            )
+
         self._annealing_temperature_decrement = (
             self.algo_parameters["annealing"]["initial_temperature"] - 1.0
         ) / (self.algo_parameters["annealing"]["n_plateau"] - 1)
